@@ -8,6 +8,7 @@ package kaisim
 import (
 	"context"
 	"fmt"
+	"os"
 	"sort"
 	"strconv"
 	"strings"
@@ -34,6 +35,19 @@ import (
 )
 
 type crashSentinel struct{ at int }
+
+// crashHere: a process crash at this point — the goroutine never runs again (nothing after the
+// crash point executes, not even deferred functions of the reconciler).
+func (b *BinderActor) crashHere(k int) {
+	id := currentReconcile()
+	b.mu.Lock()
+	cb := b.OnCrash
+	b.mu.Unlock()
+	if cb != nil {
+		cb(id, k)
+	}
+	<-make(chan struct{})
+}
 
 type BinderCall struct {
 	K     int    `json:"k"`
@@ -70,6 +84,9 @@ type BinderActor struct {
 	// BindFail: pods whose pods/binding create fails, value = how many times (>= 99: always)
 	BindFail map[string]int
 	bindFailed map[string]int
+	OnCrash func(id string, k int)
+	// Gate: when set and enabled, every call of a reconcile goroutine parks until released (C17)
+	Gate *gate
 }
 
 func kindOf(obj any) string {
@@ -114,10 +131,21 @@ func faultErr(f string, kind, name string) error {
 func NewBinderActor(api *SimAPI, allocTimeout time.Duration) *BinderActor {
 	b := &BinderActor{API: api, Plan: map[int]string{}, AgentDelay: time.Second, agentIdx: map[string]int{}, Fired: map[string]int{}}
 	pre := func(verb string, obj any, name string) error {
+		if b.Gate != nil {
+			if id := currentReconcile(); id != "" {
+				switch b.Gate.park(nil, id, verb+" "+kindOf(obj)+" "+name, "") {
+				case "crash":
+					b.crashHere(0)
+				case "error":
+					b.enter(verb, obj, name)
+					return faultErr("error", kindOf(obj), name)
+				}
+			}
+		}
 		k, f := b.enter(verb, obj, name)
 		switch f {
 		case "crash":
-			panic(crashSentinel{k})
+			b.crashHere(k)
 		case "error", "conflict", "notfound":
 			return faultErr(f, kindOf(obj), name)
 		}
@@ -220,6 +248,21 @@ func NewBinderActor(api *SimAPI, allocTimeout time.Duration) *BinderActor {
 				return nil, err
 			}
 			w, err := c.Watch(ctx, obj, opts...)
+			if err == nil {
+				// a real API server applies the field selector; the fake does not
+				lo := &client.ListOptions{}
+				lo.ApplyOptions(opts)
+				if lo.FieldSelector != nil && !lo.FieldSelector.Empty() {
+					if name, ok := lo.FieldSelector.RequiresExactMatch("metadata.name"); ok {
+						w = watch.Filter(w, func(e watch.Event) (watch.Event, bool) {
+							if m, ok := e.Object.(interface{ GetName() string }); ok {
+								return e, m.GetName() == name
+							}
+							return e, true
+						})
+					}
+				}
+			}
 			return w, post(err, "watch", obj, "")
 		},
 	}
@@ -242,27 +285,41 @@ func (b *BinderActor) startAgent(p *corev1.Pod) {
 		return
 	}
 	delay := b.AgentDelay
+	// the device is assigned when the pod starts (deterministically, in creation order) and
+	// published by the agent after its delay
+	used := map[string]bool{}
+	for _, q := range b.API.Pods() {
+		if IsReservationPod(q) && q.Spec.NodeName == p.Spec.NodeName && q.Name != p.Name {
+			used[q.Annotations[GPUIndexAnnot]] = true
+			used[q.Annotations["sim/assigned-index"]] = true
+		}
+	}
+	idx := 0
+	for used[strconv.Itoa(idx)] {
+		idx++
+	}
+	if cur := b.API.Pod(p.Namespace, p.Name); cur != nil {
+		cur = cur.DeepCopy()
+		if cur.Annotations == nil {
+			cur.Annotations = map[string]string{}
+		}
+		cur.Annotations["sim/assigned-index"] = strconv.Itoa(idx)
+		_ = b.API.Tracker.Update(PodGVR, cur, cur.Namespace)
+	}
 	go func() {
 		time.Sleep(delay)
 		cur := b.API.Pod(p.Namespace, p.Name)
 		if cur == nil {
 			return
 		}
-		used := map[string]bool{}
-		for _, q := range b.API.Pods() {
-			if IsReservationPod(q) && q.Spec.NodeName == cur.Spec.NodeName {
-				used[q.Annotations[GPUIndexAnnot]] = true
-			}
-		}
-		idx := 0
-		for used[strconv.Itoa(idx)] {
-			idx++
-		}
 		cur = cur.DeepCopy()
 		if cur.Annotations == nil {
 			cur.Annotations = map[string]string{}
 		}
 		cur.Annotations[GPUIndexAnnot] = strconv.Itoa(idx)
+		if os.Getenv("KAISIM_DEBUG_C17") != "" {
+			fmt.Printf("AGENT t=%s %s group=%s index=%d\n", time.Now().Format("15:04:05"), cur.Name, cur.Labels[GPUGroupLabel], idx)
+		}
 		cur.Status.Phase = corev1.PodRunning
 		_ = b.API.Tracker.Update(PodGVR, cur, cur.Namespace)
 	}()
@@ -272,21 +329,25 @@ func (b *BinderActor) startAgent(p *corev1.Pod) {
 // the outcome. The caller's goroutine blocks on a channel, so simulated time advances meanwhile.
 func (b *BinderActor) Reconcile(ns, name string) (res ctrl.Result, err error, crashedAt int) {
 	done := make(chan struct{})
+	crashed := make(chan int, 1)
+	b.mu.Lock()
+	b.OnCrash = func(_ string, k int) { crashed <- k }
+	b.mu.Unlock()
+	var r ctrl.Result
+	var e error
 	go func() {
-		defer close(done)
-		defer func() {
-			if p := recover(); p != nil {
-				if cs, ok := p.(crashSentinel); ok {
-					crashedAt = cs.at
-					return
-				}
-				panic(p)
-			}
-		}()
-		res, err = b.Rec.Reconcile(context.Background(), ctrl.Request{NamespacedName: types.NamespacedName{Namespace: ns, Name: name}})
+		r, e = b.Rec.Reconcile(context.Background(), ctrl.Request{NamespacedName: types.NamespacedName{Namespace: ns, Name: name}})
+		close(done)
 	}()
-	<-done
-	return
+	select {
+	case <-done:
+		return r, e, 0
+	case k := <-crashed:
+		if k == 0 {
+			k = -1
+		}
+		return ctrl.Result{}, nil, k
+	}
 }
 
 func (b *BinderActor) Sync() error { return b.RRS.Sync(context.Background()) }
